@@ -85,8 +85,7 @@ def standard(mod, ctx, replay=None):
     # 4. harness from the current tree
     exe, err = lib.build_harness(mod.HARNESS, prop.lower() + "_harness", getattr(mod, "HARNESS_FLAGS", []))
     if exe is None:
-        log("MACHINERY-ERROR harness does not compile against %s:\n%s" % (lib.REPO, err[-1500:]))
-        return 2
+        raise lib.MachineryError("harness does not compile against %s:\n%s" % (lib.REPO, err[-6000:]))
 
     # 5. cases
     if replay:
@@ -253,8 +252,13 @@ def main():
         else:
             rc = standard(mod, ctx, a.replay)
     except lib.MachineryError as e:
-        log("MACHINERY-ERROR " + str(e))
-        rc = 2
+        msg = str(e)
+        if "does not compile" in msg and not a.replay:
+            # the tie to the code is broken by the tree (the harness compiles on the unchanged tree): a violation, not silence
+            rc = lib.compile_failure_violation(ctx, getattr(mod, "HARNESS", "the harness"), msg)
+        else:
+            log("MACHINERY-ERROR " + msg)
+            rc = 2
     sys.exit(rc)
 
 
